@@ -9,6 +9,7 @@ from . import model as M
 PROPERTY = "C12"
 LEVEL = "exploration"
 HARNESS = "hgdrive"
+SANITIZE = "asan"      # thorough tier: same batch under -fsanitize=address,undefined
 RULE = ("random branch sets (3 generated branch programs + optional default: stateless, stateful, self-scheduling with a timer "
         "pending across a switch, key-consuming, one or two held inputs, reload-on-tick) x random key histories (flips every "
         "cycle, flip in the cycle of an input tick, A-B-A-B-A, repeated equal keys, unmatched key with/without default) x input "
